@@ -47,7 +47,7 @@ func LoadEngine(repo string, contractsPath string) (*Engine, error) {
 		Mode:       packages.LoadAllSyntax,
 		Dir:        repo,
 		BuildFlags: []string{"-tags=verif"},
-		Env:        append(os.Environ(), "GOFLAGS=-mod=mod", "GOPROXY=off", "GOTOOLCHAIN=local"),
+		Env:        append(os.Environ(), "GOFLAGS=-mod=mod", "GOPROXY=off", "GOTOOLCHAIN=local", "PATH=/opt/veriftools/go1.26.8/bin:"+os.Getenv("PATH")),
 	}
 	pkgs, err := packages.Load(cfg, "./leader")
 	if err != nil {
